@@ -759,9 +759,22 @@ func (g *G) like() X {
 	return X{t, &ast.BinaryExpression{Left: l.N, Operator: sp, Right: r.N, Not: not}, PCmp}
 }
 
+// tuple draws a row value (e1, e2[, e3]).
+func (g *G) tuple(n int) X {
+	ts, ns := g.args(n)
+	return X{cat(sym("("), commaJoin(ts), sym(")")), &ast.TupleExpression{Expressions: ns}, PPrimary}
+}
+
 func (g *G) in() X {
 	g.use("in")
 	l := g.cmpOperand(false)
+	width := 0
+	if !g.F.NoTupleIn && g.depth < g.F.MaxDepth && g.chance(15, "tuplein") {
+		// (a, b) IN ((1, 2), (3, 4)) / (a, b) IN (SELECT ...)
+		g.use("tuple_in")
+		width = 2 + g.intn(2, "tuplewidth")
+		l = g.tuple(width)
+	}
 	not := g.chance(40, "notin")
 	t := l.T
 	if not {
@@ -774,6 +787,14 @@ func (g *G) in() X {
 		qt, qn := g.Query(true)
 		t = cat(t, qt)
 		ie.Subquery = qn
+	} else if width > 0 {
+		var ts [][]Tok
+		for i, n := 0, 1+g.intn(3, "nintuples"); i < n; i++ {
+			e := g.tuple(width)
+			ts = append(ts, e.T)
+			ie.List = append(ie.List, e.N)
+		}
+		t = cat(t, commaJoin(ts))
 	} else {
 		ts, ns := g.args(1 + g.intn(3, "nin"))
 		t = cat(t, commaJoin(ts))
